@@ -307,7 +307,7 @@ FILL_SETS = [
 def gen_pairs(max_len):
     def gen():
         i = 0
-        for desc in spans.catalogue(max_len, min_len=1):
+        for desc in spans.catalogue(max_len, min_len=0):
             for new in new_spans(desc):
                 for kind in ('container', 'model', 'pandas-mixin'):
                     for fs in (FILL_SETS if i % 3 == 0 else FILL_SETS[i % len(FILL_SETS):][:3]):
@@ -324,7 +324,7 @@ def gen_pairs(max_len):
 
 def strategy():
     from hypothesis import strategies as st
-    descs = spans.catalogue(5, min_len=1) + spans.catalogue_long()
+    descs = spans.catalogue(5, min_len=0) + spans.catalogue_long()
 
     @st.composite
     def cases(draw):
